@@ -280,6 +280,168 @@ class SplitTupleAssignments(_StmtLists):
         return out
 
 
+
+# ---- heavier whole-package transforms (round 5, second batch): statement order, conditional expressions for
+# assign-then-override, early `continue`, named constants, numpy functions as array methods, automatic extract-method
+
+def _simple_pure_assign(s):
+    return isinstance(s,ast.Assign) and len(s.targets)==1 and isinstance(s.targets[0],ast.Name) and not any(isinstance(x,(ast.Call,ast.Lambda,ast.ListComp,ast.NamedExpr,ast.Yield,ast.Await,ast.GeneratorExp,ast.DictComp,ast.SetComp)) for x in ast.walk(s.value))
+class SwapIndependent(_StmtLists):
+    """a = E1; b = E2 (call-free, independent)  ->  b = E2; a = E1"""
+    def rewrite(self,body,owner):
+        if isinstance(owner,ast.ClassDef): return body
+        out=list(body); i=0
+        while i+1<len(out):
+            a,b=out[i],out[i+1]
+            if _simple_pure_assign(a) and _simple_pure_assign(b) and a.targets[0].id!=b.targets[0].id and a.targets[0].id not in _names(b.value,ast.Load) and b.targets[0].id not in _names(a.value,ast.Load):
+                out[i],out[i+1]=b,a; i+=2
+            else: i+=1
+        return out
+class OverrideToIfExp(_StmtLists):
+    """x = a; if c: x = b   ->   x = b if c else a   (a, c call-free, c not reading x)"""
+    def rewrite(self,body,owner):
+        out=[]; i=0
+        while i<len(body):
+            st=body[i]
+            if i+1<len(body) and _simple_pure_assign(st) and isinstance(body[i+1],ast.If) and not body[i+1].orelse and len(body[i+1].body)==1:
+                inner=body[i+1].body[0]; x=st.targets[0].id
+                if isinstance(inner,ast.Assign) and len(inner.targets)==1 and isinstance(inner.targets[0],ast.Name) and inner.targets[0].id==x and x not in _names(body[i+1].test,ast.Load) and not any(isinstance(n,(ast.Call,ast.NamedExpr)) for n in ast.walk(body[i+1].test)):
+                    # b may read x (x = x + 1): substitute a for x in b
+                    class Sub(ast.NodeTransformer):
+                        def visit_Name(self,n):
+                            return copy.deepcopy(st.value) if (n.id==x and isinstance(n.ctx,ast.Load)) else n
+                    bval=Sub().visit(copy.deepcopy(inner.value))
+                    out.append(ast.Assign([ast.Name(x,ast.Store())], ast.IfExp(body[i+1].test,bval,st.value))); i+=2; continue
+            if i+1<len(body) and _simple_pure_assign(st) and isinstance(body[i+1],ast.If) and not body[i+1].orelse and len(body[i+1].body)==1:
+                inner=body[i+1].body[0]; x=st.targets[0].id
+                if isinstance(inner,ast.AugAssign) and isinstance(inner.target,ast.Name) and inner.target.id==x and x not in _names(body[i+1].test,ast.Load) and not any(isinstance(n,(ast.Call,ast.NamedExpr)) for n in ast.walk(body[i+1].test)) and isinstance(st.value,(ast.Constant,ast.Attribute,ast.Name)):
+                    out.append(ast.Assign([ast.Name(x,ast.Store())], ast.IfExp(body[i+1].test,ast.BinOp(copy.deepcopy(st.value),inner.op,inner.value),st.value))); i+=2; continue
+            out.append(st); i+=1
+        return out
+class EarlyContinue(ast.NodeTransformer):
+    """for ..: if c: BODY   ->   for ..: if not c: continue; BODY"""
+    def visit_For(self,n):
+        self.generic_visit(n)
+        if len(n.body)==1 and isinstance(n.body[0],ast.If) and not n.body[0].orelse and not n.orelse:
+            i=n.body[0]
+            n.body=[ast.If(ast.UnaryOp(ast.Not(),i.test),[ast.Continue()],[])]+i.body
+        return n
+class NamedConstants(ast.NodeTransformer):
+    """integer literals 80, 512, 16 in function bodies -> module constants"""
+    VALUES={80:'_CARD_BYTES',512:'_SECTOR_BYTES',16:'_SIXTEEN',8:'_EIGHT'}
+    def __init__(self): self.used=set(); self.depth=0
+    def visit_FunctionDef(self,n):
+        self.depth+=1; 
+        n.body=[self.visit(s) for s in n.body]   # not defaults/decorators
+        self.depth-=1; return n
+    def visit_JoinedStr(self,n): return n
+    def visit_Constant(self,n):
+        if self.depth>0 and type(n.value) is int and n.value in self.VALUES:
+            self.used.add(n.value); return ast.Name(self.VALUES[n.value],ast.Load())
+        return n
+    def visit_Module(self,n):
+        self.generic_visit(n)
+        if self.used:
+            k=0
+            while k<len(n.body) and (isinstance(n.body[k],(ast.Import,ast.ImportFrom)) or (isinstance(n.body[k],ast.Expr) and isinstance(n.body[k].value,ast.Constant)) or isinstance(n.body[k],(ast.If,ast.Try))): k+=1
+            for v in sorted(self.used): n.body.insert(k, ast.Assign([ast.Name(self.VALUES[v],ast.Store())],ast.Constant(v)))
+        return n
+class NumpyMethods(ast.NodeTransformer):
+    """np.mean(x, ...) -> x.mean(...) for sum/mean/std/max/min/reshape/copy where x is a Name/Attribute/Subscript"""
+    def visit_Call(self,n):
+        self.generic_visit(n)
+        f=n.func
+        if isinstance(f,ast.Attribute) and isinstance(f.value,ast.Name) and f.value.id in ('np','xp') and f.attr in ('mean','std','sum','max','min','reshape','copy') and n.args and isinstance(n.args[0],(ast.Name,ast.Attribute,ast.Subscript)) and not isinstance(n.args[0],ast.Starred):
+            return ast.Call(ast.Attribute(n.args[0],f.attr,ast.Load()),n.args[1:],n.keywords)
+        return n
+class ExtractMethod(ast.NodeTransformer):
+    """the middle third of the top-level statements of every function with >= 6 statements becomes a module-level helper
+    (reads -> parameters, names assigned and used later -> returned tuple); blocks with return/yield/break/continue/global/nonlocal,
+    nested defs or del are skipped"""
+    def __init__(self): self.new=[]; self.k=0; self.modnames=set()
+    def visit_Module(self,n):
+        self.modnames={x.id for x in ast.walk(n) if isinstance(x,ast.Name)}|{a.asname or a.name.split('.')[0] for s in ast.walk(n) if isinstance(s,(ast.Import,ast.ImportFrom)) for a in s.names}
+        self.generic_visit(n)
+        n.body.extend(self.new); return n
+    def visit_ClassDef(self,n):
+        self.generic_visit(n); return n
+    def visit_FunctionDef(self,n):
+        body=n.body
+        start=1 if (body and isinstance(body[0],ast.Expr) and isinstance(body[0].value,ast.Constant)) else 0
+        stmts=body[start:]
+        if len(stmts)<6: return n
+        a=len(stmts)//3; b=2*len(stmts)//3
+        block=stmts[a:b]
+        bad=(ast.Return,ast.Yield,ast.YieldFrom,ast.Break,ast.Continue,ast.Global,ast.Nonlocal,ast.FunctionDef,ast.ClassDef,ast.Delete,ast.Lambda,ast.Try,ast.With,ast.NamedExpr)
+        if any(isinstance(x,bad) for s in block for x in ast.walk(s)): return n
+        if any(isinstance(x,(ast.Nonlocal,ast.Global,ast.Yield,ast.YieldFrom)) for x in ast.walk(n)): return n
+        # names local to the function
+        params=[x.arg for x in n.args.posonlyargs+n.args.args+n.args.kwonlyargs]+([n.args.vararg.arg] if n.args.vararg else [])+([n.args.kwarg.arg] if n.args.kwarg else [])
+        assigned_in_func={x.id for x in ast.walk(n) if isinstance(x,ast.Name) and isinstance(x.ctx,ast.Store)}|set(params)
+        before={x.id for s in stmts[:a] for x in ast.walk(s) if isinstance(x,ast.Name) and isinstance(x.ctx,ast.Store)}|set(params)
+        comp_locals={x.id for s in block for c in ast.walk(s) if isinstance(c,(ast.ListComp,ast.SetComp,ast.DictComp,ast.GeneratorExp)) for g in c.generators for x in ast.walk(g.target) if isinstance(x,ast.Name)}
+        reads=[]; 
+        for s in block:
+            for x in ast.walk(s):
+                if isinstance(x,ast.Name) and isinstance(x.ctx,ast.Load) and x.id in assigned_in_func and x.id not in reads and x.id not in comp_locals: reads.append(x.id)
+        writes=[]
+        for s in block:
+            for x in ast.walk(s):
+                if isinstance(x,ast.Name) and isinstance(x.ctx,ast.Store) and x.id not in writes and x.id not in comp_locals: writes.append(x.id)
+        # reads of names first assigned inside the block before being read are fine to pass only if defined before; require defined before or written in block
+        definite=set(params)
+        for s_ in stmts[:a]:
+            if isinstance(s_,ast.Assign):
+                for t_ in s_.targets:
+                    for x in ast.walk(t_):
+                        if isinstance(x,ast.Name) and isinstance(x.ctx,ast.Store): definite.add(x.id)
+        first={}
+        for s_ in block:
+            for x in sorted([y for y in ast.walk(s_) if isinstance(y,ast.Name)], key=lambda y:(y.lineno,y.col_offset)):
+                if x.id in assigned_in_func and x.id not in comp_locals:
+                    # the value of an assignment is evaluated before its target is bound
+                    first.setdefault(x.id, 'L' if isinstance(x.ctx,ast.Load) else 'S')
+        # (x = f(x): the target precedes the value textually; treat any name that is loaded anywhere in the statement that first stores it as a load)
+        for s_ in block:
+            if isinstance(s_,(ast.Assign,ast.AugAssign)):
+                tg={y.id for t_ in (s_.targets if isinstance(s_,ast.Assign) else [s_.target]) for y in ast.walk(t_) if isinstance(y,ast.Name)}
+                ld={y.id for y in ast.walk(s_.value) if isinstance(y,ast.Name)}
+                for nm in tg&ld:
+                    if first.get(nm)=='S' and not any(nm in {y.id for y in ast.walk(q) if isinstance(y,ast.Name)} for q in block[:block.index(s_)]): first[nm]='L'
+                if isinstance(s_,ast.AugAssign) and isinstance(s_.target,ast.Name): 
+                    if not any(s_.target.id in {y.id for y in ast.walk(q) if isinstance(y,ast.Name)} for q in block[:block.index(s_)]): first[s_.target.id]='L'
+        ins=[r for r in reads if first.get(r)=='L']
+        if any(r not in definite for r in ins): return n
+        before=definite
+        # a name read in the block, not defined before, but written in block: must be written before read -> accept (approximation)
+        after_reads={x.id for s in stmts[b:] for x in ast.walk(s) if isinstance(x,ast.Name) and isinstance(x.ctx,ast.Load)}
+        outs=[w for w in writes if w in after_reads]
+        # conditional writes of names that existed before must be passed in as well
+        definite_in_block=set()
+        for s_ in block:
+            if isinstance(s_,ast.Assign):
+                for t_ in s_.targets:
+                    for x in ast.walk(t_):
+                        if isinstance(x,ast.Name) and isinstance(x.ctx,ast.Store): definite_in_block.add(x.id)
+        if any(w not in definite_in_block and w not in definite for w in outs): return n
+        maybe_before={x.id for s_ in stmts[:a] for x in ast.walk(s_) if isinstance(x,ast.Name) and isinstance(x.ctx,ast.Store)}|set(params)
+        for w in outs:
+            if w in maybe_before and w not in ins:
+                if w not in definite: return n
+                ins.append(w)
+        self.k+=1
+        hname=f'_extracted_{n.name.strip("_")}_{self.k}'
+        helper=ast.FunctionDef(name=hname,args=ast.arguments(posonlyargs=[],args=[ast.arg(i) for i in ins],kwonlyargs=[],kw_defaults=[],defaults=[],vararg=None,kwarg=None),
+            body=copy.deepcopy(block)+[ast.Return(ast.Tuple([ast.Name(o,ast.Load()) for o in outs],ast.Load()))],decorator_list=[],returns=None,type_comment=None,type_params=[])
+        call=ast.Call(ast.Name(hname,ast.Load()),[ast.Name(i,ast.Load()) for i in ins],[])
+        if outs:
+            st=ast.Assign([ast.Tuple([ast.Name(o,ast.Store()) for o in outs],ast.Store())],call)
+        else:
+            st=ast.Expr(call)
+        n.body=body[:start]+stmts[:a]+[st]+stmts[b:]
+        self.new.append(helper)
+        return n
+
 ALL = {
     'annotate_signatures': AnnotateSignatures, 'annotated_assignments': AnnotatedAssignments, 'numpy_unaliased': NumpyUnaliased,
     'negate_conditional_expressions': NegateConditionalExpressions, 'return_through_temporary': ReturnThroughTemporary,
@@ -288,6 +450,9 @@ ALL = {
     'flatten_else_after_return': FlattenElseAfterReturn, 'reverse_keywords': ReverseKeywords, 'dict_calls': DictCalls,
     'tuple_list_arguments': TupleListArguments, 'square_as_product': SquareAsProduct,
     'merge_constant_assignments': MergeConstantAssignments, 'split_tuple_assignments': SplitTupleAssignments,
+    'swap_independent_assignments': SwapIndependent, 'override_to_conditional_expression': OverrideToIfExp,
+    'early_continue': EarlyContinue, 'named_constants': NamedConstants, 'numpy_methods': NumpyMethods,
+    'extract_method': ExtractMethod,
 }
 
 
@@ -314,3 +479,24 @@ def apply(root, name):
                 return f'transform {name} produced unparsable code for {f}: {e}'
             open(p, 'w').write(out)
     return None if n_changed else f'transform {name} changed nothing'
+
+
+class ConditionalRebind(ast.NodeTransformer):
+    """if c: p = b   (p a parameter of the function, statement at the top level of its body)  ->  p = b if c else p"""
+    def visit_FunctionDef(self, n):
+        self.generic_visit(n)
+        params = {a.arg for a in n.args.posonlyargs + n.args.args + n.args.kwonlyargs}
+        out = []
+        for st in n.body:
+            if isinstance(st, ast.If) and not st.orelse and len(st.body) == 1 and isinstance(st.body[0], ast.Assign) and \
+                    len(st.body[0].targets) == 1 and isinstance(st.body[0].targets[0], ast.Name) and \
+                    st.body[0].targets[0].id in params:
+                x = st.body[0].targets[0].id
+                out.append(ast.Assign([ast.Name(x, ast.Store())], ast.IfExp(st.test, st.body[0].value, ast.Name(x, ast.Load()))))
+            else:
+                out.append(st)
+        n.body = out
+        return n
+
+
+ALL['conditional_rebind'] = ConditionalRebind
